@@ -14,13 +14,17 @@ def gen_world(tape, tier):
     from cnvlib.cnary import CopyNumArray as CNA
     from skgenome import GenomicArray as GA
 
-    style = tape.choice(["chr", "plain"], "w.style")
+    # "roman": a genome without integer-named chromosomes (yeast / C. elegans style): no name matches
+    # the autosome pattern, so autosomes() and friends take their "nothing to select" paths
+    style = tape.weighted([("chr", 3), ("plain", 3), ("roman", 1)], "w.style")
     n_auto = tape.between(2, 4, "w.nauto")
     with_x = tape.chance(2, 3, "w.X")
     with_y = tape.chance(1, 3, "w.Y")
     names = ["1", "2", "5", "17"][:n_auto] + (["X"] if with_x else []) + (["Y"] if with_y else [])
     if style == "chr":
         names = ["chr" + n for n in names]
+    elif style == "roman":
+        names = ["chrI", "chrII", "chrIII", "chrIV"][:n_auto] + (["chrX"] if with_x and with_y else [])
     rng = np.random.default_rng(tape.subseed("w.bulk"))
     max_bins = tape.choice([30, 60, 150], "w.maxbins")
     sample_female = tape.chance(1, 2, "w.female")
@@ -142,6 +146,18 @@ def gen_world(tape, tier):
     spread[rng.random(n_u) < 0.02] = 1.3
     ref["spread"] = spread
 
+    # sibling references over the same bins under the same name (what `reference` always writes):
+    # one without the rmask column, one with other values
+    ref_nomask = ref.drop(columns=["rmask"])
+    ref_alt = ref.copy()
+    ref_alt["log2"] = ref_l2 + rng.normal(0, 0.3, size=n_u)
+    ref_alt["depth"] = np.exp2(ref_alt["log2"].to_numpy())
+    ref_alt["spread"] = rng.uniform(0.02, 0.5, size=n_u)
+    ref_alt["gc"] = rng.uniform(0.32, 0.68, size=n_u)
+    # a second sample over the same bins (deeper, other noise)
+    tcov_b = coverage(tb, 6.0, 0.2)
+    acov_b = coverage(ab, 1.5, 0.3)
+
     # a ready-made ratio table over the same bins, with segments from the truth
     cnr = union[["chromosome", "start", "end", "gene"]].copy()
     lvl = union["_level"].to_numpy()
@@ -192,6 +208,18 @@ def gen_world(tape, tier):
     cnr_clean["log2"] = cl2
     cnr_clean["depth"] = np.exp2(cl2) * np.where(is_t, 100.0, 3.0)
     cnr_clean["weight"] = rng.uniform(0.5, 1.0, size=n_u)
+    # the same table with every chromosome's coordinates mirrored: same chromosome names and bin
+    # counts as `cnr`, other gap structure (state keyed on a table's shape is confused by this)
+    parts = []
+    for chrom in names:
+        sub = cnr[cnr["chromosome"] == chrom].iloc[::-1].copy()
+        if len(sub):
+            top = int(sub["end"].max()) + 1000
+            s_new = top - sub["end"].to_numpy()
+            e_new = top - sub["start"].to_numpy()
+            sub["start"], sub["end"] = s_new, e_new
+            parts.append(sub)
+    cnr_mirror = pd.concat(parts, ignore_index=True) if parts else cnr.copy()
     # heterozygous / homozygous SNVs (and a few indels) over the targeted bins, tumour
     # frequencies shifted where the truth has a copy-number change; optional paired normal
     from cnvlib.vary import VariantArray as VA
@@ -228,8 +256,16 @@ def gen_world(tape, tier):
         "tcov": CNA(tcov, dict(meta)),
         "acov": CNA(acov, dict(meta)),
         "ref": CNA(ref, {"sample_id": "reference"}),
+        "ref_nomask": CNA(ref_nomask, {"sample_id": "reference"}),
+        "ref_alt": CNA(ref_alt, {"sample_id": "reference"}),
+        "tcov_b": CNA(tcov_b, {"sample_id": "S2"}),
+        "acov_b": CNA(acov_b, {"sample_id": "S2"}),
         "cnr": CNA(cnr, dict(meta)),
         "cnr_clean": CNA(cnr_clean, dict(meta)),
+        "cnr_mirror": CNA(cnr_mirror, dict(meta)),
+        # one chromosome only (sorted, non-overlapping): the "nothing to do" fast paths of
+        # merge / flatten return their input table
+        "cnr_chr1": CNA(cnr[cnr["chromosome"] == names[0]].reset_index(drop=True), dict(meta)),
         "cns": CNA(cns, dict(meta)),
         "cns_stats": CNA(cns_stats, dict(meta)),
     }
